@@ -22,6 +22,7 @@ fn case(g: &mut Gen, ctx: &mut Ctx) -> CaseResult {
     ctx.classf(format!("faults-planted:{}", faults.log.len().min(3)));
 
     let mut views: Vec<MHeader> = vec![];
+    let mut expected_views: Vec<MHeader> = vec![];
     for style in 0..2 {
         let o = if style == 0 && g.bool() { StyleOpts::NONE } else { StyleOpts::ALL };
         // (1) standalone
@@ -42,10 +43,13 @@ fn case(g: &mut Gen, ctx: &mut Ctx) -> CaseResult {
             }
         }
         check_one("Header::from_slice", &item, &bytes, &expect, got.as_ref().map(header_to_model).map_err(|e| format!("{:?}", e)))?;
-        if let (Ok(_), Ok(h)) = (&expect, &got) {
+        if let (Ok(e), Ok(h)) = (&expect, &got) {
             let mut m = header_to_model(h)?;
             strip_wire_header(&mut m);
             views.push(m);
+            let mut e = e.clone();
+            strip_wire_header(&mut e);
+            expected_views.push(e);
         }
 
         // (2) as the unprotected header of a carrier, (3) inside a protected bstr
@@ -78,7 +82,9 @@ fn case(g: &mut Gen, ctx: &mut Ctx) -> CaseResult {
             _ => {}
         }
     }
-    if views.len() == 2 {
+    // (a wrapped byte string placed by a planted slot swap outside a protected slot makes the content
+    // itself style-dependent: then the two encodings do not denote the same header content)
+    if views.len() == 2 && expected_views[0] == expected_views[1] {
         ensure!(views[0] == views[1], "two encodings of the same header content decode to different headers\n  item: {}", diag(&item));
     }
     Ok(())
